@@ -178,38 +178,10 @@ fn c19_corner_params_no_panic() {
     core::mem::forget(r);
 }
 
-macro_rules! grid_k {
-    ($name:ident, $k:expr) => {
-        #[kani::proof]
-        #[kani::stub(core::arch::x86_64::__cpuid_count, cpuid_none)]
-        #[kani::stub(equihash::verify::generate_hash, generate_hash_stub)]
-        #[kani::unwind(36)]
-        fn $name() {
-            unsafe { ROW = kani::any() };
-            let mut n: u32 = 8;
-            while n <= 40 {
-                grid_call(n, $k, false);
-                n += 8;
-            }
-            grid_call(56, $k, true);
-            grid_call(96, $k, false);
-            grid_call(104, $k, true);
-            grid_call(136, $k, true);
-            grid_call(200, $k, true);
-            grid_call(520, $k, true);
-            grid_call(1024, $k, true);
-            grid_call(0, $k, true);
-            grid_call(u32::MAX - 7, $k, true);
-        }
-    };
-}
-
-//@ {"p":"C19","tier":"quick","clause":"for k=3, n in {8,16,24,32,40,56,96,104,136,200,520,1024,0,2^32-8}: Params::new + indices_from_minimal on a solution of exactly the expected minimal length, and is_valid_solution on a 1-byte solution (always Err), never panic; for the rejected ones also Node::new via the hook returns None (the whole-tree call through is_valid_solution did not get through symex in 900 s; the tree step is covered by the c19_step_* harnesses)","bounds":"14 parameter sets, expected length <= 34; solution bytes concrete (the panics in question depend only on (n,k,len))","assume":"stub: generate_hash returns an arbitrary 64-byte row","covers":0,"t":900}
-grid_k!(c19_grid_no_panic_k3, 3);
-//@ {"p":"C19","tier":"thorough","clause":"same for k=4 (expected length 2(c+1) bytes)","bounds":"same n set","assume":"stub: generate_hash arbitrary","covers":0,"t":1800}
-grid_k!(c19_grid_no_panic_k4, 4);
-//@ {"p":"C19","tier":"thorough","clause":"same for k=7 (c=7 at n=56: Node::new's expand_array(bit_len=c) minimum)","bounds":"same n set","assume":"stub: generate_hash arbitrary","covers":0,"t":1800}
-grid_k!(c19_grid_no_panic_k7, 7);
+// (A per-k grid family through the decoder for every accepted n was tried and dropped: three
+// accepted decodes in one harness did not get through symex in 1000 s because of the io::Error
+// drop glue in `indices_from_minimal`'s read loop. The all-(n,k) parameter harness, the
+// per-width decode harnesses and the corner harness above cover the same ground piecewise.)
 
 // ---------------------------------------------------------------------------------------------
 // Layer 3: one step of the tree validator from ARBITRARY children.
@@ -412,3 +384,91 @@ leaf!(c19_leaf_200_9, 200, 9);
 leaf!(c19_leaf_48_5, 48, 5);
 //@ {"p":"C19","tier":"thorough","clause":"leaf of (96,5): 16-bit segments","bounds":"all u32 indices, all hash outputs","assume":"stub: generate_hash arbitrary","covers":1,"t":900,"stub":true}
 leaf!(c19_leaf_96_5, 96, 5);
+
+// ---------------------------------------------------------------------------------------------
+// Root test: tree validation followed by "the remaining segment is zero", on the smallest trees
+// (1 and 2 leaves) under an arbitrary hash function. Exercises tree_validator's recursion step
+// and is_valid_solution_recursive's final check through the hook `validate_indices`.
+// ---------------------------------------------------------------------------------------------
+
+static mut ROWS: [[u8; 64]; 2] = [[0u8; 64]; 2];
+static mut ROW_KEYS: [u32; 2] = [0; 2];
+static mut ROW_USED: usize = 0;
+
+/// Arbitrary but CONSISTENT hash function on at most two distinct blocks: the same block index
+/// always gets the same row.
+fn generate_hash_stub2(_base: &blake2b_simd::State, g: u32) -> blake2b_simd::Hash {
+    unsafe {
+        let used = ROW_USED;
+        if used >= 1 && ROW_KEYS[0] == g {
+            return mk_hash(&*core::ptr::addr_of!(ROWS[0]), STUB_LEN);
+        }
+        if used >= 2 && ROW_KEYS[1] == g {
+            return mk_hash(&*core::ptr::addr_of!(ROWS[1]), STUB_LEN);
+        }
+        assert!(used < 2);
+        ROW_KEYS[used] = g;
+        ROW_USED = used + 1;
+        mk_hash(&*core::ptr::addr_of!(ROWS[used]), STUB_LEN)
+    }
+}
+
+macro_rules! root_check {
+    ($name:ident, $n:expr, $k:expr) => {
+        #[kani::proof]
+        #[kani::stub(equihash::verify::generate_hash, generate_hash_stub2)]
+        #[kani::stub(core::arch::x86_64::__cpuid_count, cpuid_none)]
+        #[kani::unwind(66)]
+        fn $name() {
+            const N: u32 = $n;
+            const K: u32 = $k;
+            let (ipho, ho, c, cb) = hk::params(N, K).unwrap();
+            unsafe {
+                ROWS = kani::any();
+                STUB_LEN = ho as usize;
+            }
+            let nb = (N / 8) as usize;
+            // leaf hash of index i under the stub: the c-bit segments of its row slice
+            let seg0 = |row: &[u8; 64], i: u32, e: usize| -> u32 {
+                let start = ((i % ipho) * N / 8) as usize;
+                slice_bits(&row[start..start + nb], e, c)
+            };
+            // --- one leaf: Ok iff the leaf's first segment is zero, else NonZeroRootHash
+            let i: u32 = kani::any();
+            let r1 = hk::validate_indices(N, K, &[], &[], &[i]).unwrap();
+            let row_i = unsafe { ROWS[0] };
+            let s_i0 = seg0(&row_i, i, 0);
+            assert!(r1 == if s_i0 == 0 { 0 } else { 4 });
+            kani::cover!(r1 == 0);
+            kani::cover!(r1 == 4 && s_i0 < 256); // non-zero only in the low 8 bits of the segment
+            // --- two leaves in the same hash block (so one stub row serves both)
+            unsafe { ROW_USED = 0 };
+            let j: u32 = kani::any();
+            kani::assume(i / ipho == j / ipho);
+            let r2 = hk::validate_indices(N, K, &[], &[], &[i, j]).unwrap();
+            let row = unsafe { ROWS[0] };
+            let (a0, b0) = (seg0(&row, i, 0), seg0(&row, j, 0));
+            let (a1, b1) = (seg0(&row, i, 1), seg0(&row, j, 1));
+            let want = if a0 != b0 {
+                1 // Collision
+            } else if j < i {
+                2 // OutOfOrder
+            } else if i == j {
+                3 // DuplicateIdxs
+            } else if a1 ^ b1 != 0 {
+                4 // NonZeroRootHash
+            } else {
+                0
+            };
+            assert!(r2 == want);
+            kani::cover!(r2 == 0);
+            kani::cover!(r2 == 4 && (a1 ^ b1) < 256);
+            kani::cover!(r2 == 2);
+        }
+    };
+}
+
+//@ {"p":"C19","tier":"quick","clause":"root test through tree_validator + is_valid_solution_recursive on 1- and 2-leaf trees of (200,9): a single leaf is accepted iff its first 20-bit segment is zero; two leaves are accepted iff their first segments collide, i<j, and the xor of their second segments is zero over the WHOLE segment (all 20 bits, i.e. ceil(20/8)=3 bytes); error kinds in the documented precedence","bounds":"all u32 indices (two leaves in the same hash block), all hash rows (generate_hash stubbed: arbitrary consistent hash function)","assume":"stub: generate_hash arbitrary but consistent on <=2 blocks; trees of 1 and 2 leaves are not full solutions (reached through the verif hook)","covers":6,"t":1800,"stub":true}
+root_check!(c19_root_check_200_9, 200, 9);
+//@ {"p":"C19","tier":"thorough","clause":"same for (48,3): 12-bit segments in 2 bytes","bounds":"all indices and rows","assume":"stub: generate_hash arbitrary consistent","covers":6,"t":1800,"stub":true}
+root_check!(c19_root_check_48_3, 48, 3);
